@@ -315,16 +315,17 @@ class Equation(Basic):
                     else:
                         # TODO treate case of vector test function
                         position = trials.index(i.variable)
-                        i.set_position(position)
 
+                # the caller's condition is left untouched: the equation stores
+                # new conditions carrying the position of the unknown
                 if isinstance(i.boundary, Union):
-                    if isinstance(i, EssentialBC):
-                        newbc += [EssentialBC(i.lhs, i.rhs, j, position=i.position,
-                                              index_component=i.index_component)
-                                  for j in i.boundary._args]
-
+                    boundaries = i.boundary._args
                 else:
-                    newbc += [i]
+                    boundaries = [i.boundary]
+
+                newbc += [EssentialBC(i.lhs, i.rhs, j, position=position,
+                                      index_component=i.index_component)
+                          for j in boundaries]
 
             bc = Tuple(*newbc)
         # ...
